@@ -250,7 +250,13 @@ theorem eval_good (env : Env) : ∀ f s p, Good s (eval env f s p).1 := by
         ⟨loadAndRecord_le _ _ _ _ (fun s => (ih s _).1), loadAndRecord_shape _ _ _ _ (fun s => (ih s _).2)⟩
       generalize loadAndRecord env _ key s' = r at hf ⊢
       obtain ⟨s1, o⟩ := r
-      exact hf.trans (cont_good o s1 _ _ (fun r s => ih s (k r)))
+      cases o with
+      | ok v =>
+        simp only []
+        exact hf.trans (Good.trans (b := s1.handOut key.ty) ⟨St.Le.of_map_eq rfl, ⟨rfl, rfl⟩⟩ (ih _ _))
+      | err e => exact hf.trans (cont_good _ s1 _ _ (fun r s => ih s (k r)))
+      | panicked => exact hf.trans (cont_good _ s1 _ _ (fun r s => ih s (k r)))
+      | diverged => exact hf.trans (cont_good _ s1 _ _ (fun r s => ih s (k r)))
     | load key k =>
       simp only [eval]
       refine (good_record s (recordsAsset (env.types key.ty).hot env.hasReloader) (.asset key)).trans ?_
@@ -269,7 +275,7 @@ theorem eval_good (env : Env) : ∀ f s p, Good s (eval env f s p).1 := by
           refine hf.trans (Good.trans ?_ (ih _ _))
           refine ⟨?_, ?_⟩
           · exact (St.insertKeepFirst_le s1 key _).trans (St.Le.of_map_eq rfl)
-          · simp [SameShape]
+          · simp [SameShape, St.own]
         | err e => exact hf.trans (cont_good _ s1 _ _ (fun r s => ih s (k r)))
         | panicked => exact hf.trans (cont_good _ s1 _ _ (fun r s => ih s (k r)))
         | diverged => exact hf.trans (cont_good _ s1 _ _ (fun r s => ih s (k r)))
